@@ -22,13 +22,18 @@ JoinU(p) == IF p = <<>> THEN "" ELSE IF Len(p) = 1 THEN p[1] ELSE p[1] \o "_" \o
 (* by '.', which the resolver turns into "a_b"                                                                 *)
 Sanitize(seg) == CASE seg = "a.b" -> "a_b" [] OTHER -> seg
 
+(* the name is computed from the PATH of the target's location and the fragment only: scheme and host are dropped *)
 InternalName(file, name) == JoinU([i \in DOMAIN file |-> Sanitize(file[i])] \o <<name>>)
+InternalNameAt(origin, file, name) == InternalName(file, name)
+Origins == {"", "https://m.example"}
 
 Files == {<<"a">>, <<"b">>, <<"sub", "a">>, <<"sub_a">>, <<"a.b">>, <<"a_b">>, <<"sub", "deep", "a">>, <<"sub", "deep_a">>}
 Names == {"X", "X_Y", "a_X"}
 Targets == Files \X Names
+OTargets == Origins \X Files \X Names
 
-Injective == \A t1, t2 \in Targets : InternalName(t1[1], t1[2]) = InternalName(t2[1], t2[2]) => t1 = t2
+Injective == /\ \A t1, t2 \in Targets : InternalName(t1[1], t1[2]) = InternalName(t2[1], t2[2]) => t1 = t2
+             /\ \A t1, t2 \in OTargets : InternalNameAt(t1[1], t1[2], t1[3]) = InternalNameAt(t2[1], t2[2], t2[3]) => t1 = t2
 
 (* the collisions of the naming scheme, as TLC enumerates them (evidence of the open finding F-C16-1) *)
 Collisions == {<<t1, t2>> \in Targets \X Targets : t1 # t2 /\ InternalName(t1[1], t1[2]) = InternalName(t2[1], t2[2])}
